@@ -10,11 +10,12 @@ import numpy as np
 
 import bct
 from bctmc import smallscope as ss
+from bctmc import named
 from bctmc.runner import guarded
 from bctmc.tally import Tally
 
 PROPERTY = 'C15'
-RULE = ('all undirected graphs n<=5 (quick) / n<=6 (thorough) x k=0..n; all digraphs n<=4 x k=0..2n-1 '
+RULE = ('the structured 7-10 node family of bctmc/named.py and all undirected graphs n<=5 (quick) / n<=6 (thorough) x k=0..n; all digraphs n<=4 x k=0..2n-1 '
         '(n<=3 and 4-node digraphs in quick); symmetric weights {1,2,3}, {0.5,1,1.5} and the non-dyadic {0.3,0.6} on 4 nodes x s on a 0.25 '
         'grid up to max strength+0.25; coreness on every graph; non-trivial = (graph,k) whose peeling needs >= 2 '
         'rounds (removing one node drags others below the bound)')
@@ -36,6 +37,10 @@ def plan(ctx):
         tot = ss.und_count(4, alpha)
         for (a, b) in ss.ranges(tot, 64):
             units.append(('wu', 4, alpha, a, b))
+    for tag in ('bin_und', 'bin_dir'):
+        tot = len(named.family(tag))
+        for (a, b) in ss.ranges(tot, 32):
+            units.append(('named_' + tag, 0, (0, 1), a, b))
     if ctx.thorough:
         tot = ss.und_count(5, (0, 1, 2))
         for (a, b) in ss.ranges(tot, 256):
@@ -194,6 +199,14 @@ def work(unit):
     kind, n, alpha, a, b = unit
     t = Tally(PROPERTY)
     for idx in range(a, b):
+        if kind.startswith('named_'):
+            label, A = named.family(kind[6:])[idx]
+            k2 = 'und' if kind.endswith('und') else 'dir'
+            base = {'family': k2, 'n': len(A), 'alphabet': [0, 1], 'index': idx, 'graph': label, 'A': A}
+            nt = check_graph(t, k2, A, base)
+            t.c['nontrivial'] += nt
+            t.c['graphs'] += 1
+            continue
         A = ss.dir_graph(n, alpha, idx) if kind == 'dir' else ss.und_graph(n, alpha, idx)
         base = {'family': kind, 'n': n, 'alphabet': list(alpha), 'index': idx, 'A': A}
         nt = check_graph(t, kind, A, base)
